@@ -50,7 +50,11 @@ MPushStart == /\ Is("push_start")
 MPushEnd == /\ Is("push_end")
             /\ open' = open \ {E.call}
             /\ anyFail' = (anyFail \/ E.out # "ok")
-            /\ finalItems' = IF E.out \in {"ok", "perm"} \/ ~cfg.retry THEN finalItems \cup SetOf(E.items) ELSE finalItems
+            \* final: the call returned ok / a permanent error, or any error with retry disabled; of a PARTIAL failure the
+            \* items not named as undelivered were delivered
+            /\ finalItems' = IF E.out \in {"ok", "perm"} \/ ~cfg.retry THEN finalItems \cup SetOf(E.items)
+                              ELSE IF Len(E.rem) > 0 THEN finalItems \cup (SetOf(E.items) \ SetOf(E.rem))
+                              ELSE finalItems
             /\ UNCHANGED <<sid, cfg, before, given, attempts, shutReq, shutRet, late, offerErr>>
 
 MLate == /\ Is("late_push") /\ late' = TRUE
